@@ -14,14 +14,17 @@ FEATURES = {
     "T": [3, 1, 2, 4],
     # option "aux" (filter through an auxiliary function) is handled by make_source but is
     # not part of the E1 alphabet: it is known finding K4 (C17) and only C17/C12 enumerate it
-    "filt": ["sd", "none", "grow", "shrink", "two", "states"],
+    "filt": ["sd", "none", "grow", "shrink", "two", "states", "mix"],
     "e": [0, 1],
     "cc": ["c", "none", "cl"],
     "wgrid": ["lin", "log", "extrap", "disc"],
     "k": ["none", "lin", "log"],
     "g": [0, 1],
-    "h": ["none", "h", "hd", "dh", "ph", "s", "hg", "two", "restricted"],
+    "h": ["none", "h", "hd", "dh", "ph", "s", "hg", "two", "restricted", "hp", "dph"],
     "cons": ["c", "none", "disc", "period", "param", "aux"],
+    # make_source also supports "reduce" (a legal scalar function that is NOT broadcast-safe: it reduces
+    # over a stacked array); it is enumerated explicitly by C03/C13 only, because simulate evaluates the
+    # transition functions on whole agent vectors (known finding K5)
     "aux": ["one", "none", "chain", "period", "const"],
     "trans": ["default", "identity", "period", "param"],
     # "beta": every function parameter is called `beta` (a legal name; must not be confused with the discount factor)
@@ -91,9 +94,11 @@ def make_source(fv):
 
     # ---------------- auxiliary functions
     aux_arg = None
-    if fv["aux"] in ("one", "chain", "period"):
+    if fv["aux"] in ("one", "chain", "period", "reduce"):
         wage = pn("wage")
-        if fv["aux"] == "period":
+        if fv["aux"] == "reduce":
+            L.append(f"def inc(d, s, {wage}):\n    return jnp.sum(jnp.array([d * {wage}, 0.1 * s, 0.05 * d * s]))\n\ninc._scalar_only = True")
+        elif fv["aux"] == "period":
             L.append(f"def inc(d, {wage}, _period):\n    return d * {wage} * (1 + 0.5 * _period)")
         else:
             L.append(f"def inc(d, {wage}):\n    return d * {wage}")
@@ -160,8 +165,8 @@ def make_source(fv):
         uargs.append("c")
         terms.append("+ jnp.log(c)")
     if has_l:
-        uargs.append("l")
-        terms.append("+ 0.3 * jnp.log(l) - 0.05 * l * d")
+        uargs.append("b")
+        terms.append("+ 0.3 * jnp.log(b) - 0.05 * b * d")
     if aux_arg:
         uargs.append(aux_arg)
         terms.append(f"+ 0.05 * {aux_arg}" + (" * w" if aux_arg == "kconst" else ""))
@@ -194,6 +199,10 @@ def make_source(fv):
         L.append("def sp_filter(s, d, _period):\n    return jnp.logical_and(s >= _period, d >= 0)")
         funcs.append("sp_filter")
         next_s_expr = "jnp.clip(jnp.maximum(s + d, _period + 1), 0, 2)"
+    elif fv["filt"] == "mix":
+        L.append("def sd_filter(s, d):\n    return jnp.logical_or(d == 0, s < 2)")
+        L.append("def sp_filter(s, d, _period):\n    return jnp.logical_and(s <= _period + 1, d <= _period)")
+        funcs += ["sd_filter", "sp_filter"]
     elif fv["filt"] == "two":
         L.append("def sd_filter(s, d):\n    return jnp.logical_or(d == 0, s < 2)")
         L.append("def sd2_filter(s, d):\n    return jnp.logical_or(d == 1, s > 0)")
@@ -248,8 +257,8 @@ def make_source(fv):
             wargs.append("inc")
             expr += " + 0.1 * inc"
         if has_l:
-            wargs.append("l")
-            expr += " + 0.4 * (1.2 - l)"
+            wargs.append("b")
+            expr += " + 0.4 * (1.2 - b)"
         if fv["wgrid"] == "log":
             expr = f"jnp.clip({expr}, 1.0, 5.0)"
         elif fv["wgrid"] == "extrap":
@@ -269,7 +278,7 @@ def make_source(fv):
         P["next_k"] = {}
     hdeps = None
     if has_h:
-        hdeps = {"h": ["h"], "hd": ["h", "d"], "dh": ["d", "h"], "ph": ["_period", "h"], "s": ["s"],
+        hdeps = {"h": ["h"], "hd": ["h", "d"], "dh": ["d", "h"], "ph": ["_period", "h"], "s": ["s"], "hp": ["h", "_period"], "dph": ["d", "_period", "h"],
                  "hg": ["h", "g"], "two": ["h", "d"], "restricted": ["h", "d"]}[fv["h"]]
         L.append(f"@lcm.mark.stochastic\ndef next_h({', '.join(hdeps)}):\n    pass")
         funcs.append("next_h")
@@ -289,7 +298,7 @@ def make_source(fv):
     if has_c:
         choices.append(("c", "Lin(0.5, 3.0, 6)"))
     if has_l:
-        choices.append(("l", "Lin(0.2, 1.2, 3)"))
+        choices.append(("b", "Lin(0.2, 1.2, 3)"))  # declared after c: declaration order != alphabetical
     if fv["order"] == "srev":
         states = states[::-1]
     if fv["order"] == "crev":
@@ -318,14 +327,24 @@ def Log(a, b, n): return LogspaceGrid(start=a, stop=b, n_points=n)
 '''
 
 
-def build(fv):
-    src, states, choices, funcs, P, shocks = make_source(fv)
-    text = PRELUDE + src + "\n\nMODEL = Model(n_periods=%d,\n    functions={%s},\n    choices={%s},\n    states={%s})\n" % (
-        fv["T"],
-        ", ".join(f'"{f}": {f}' for f in funcs),
+def assemble(T, src, states, choices, funcs, func_keys=None):
+    """Model source text from parts; func_keys maps function name -> key in the functions dict."""
+    func_keys = func_keys or {}
+    return PRELUDE + src + "\n\nMODEL = Model(n_periods=%d,\n    functions={%s},\n    choices={%s},\n    states={%s})\n" % (
+        T,
+        ", ".join(f'"{func_keys.get(f, f)}": {f}' for f in funcs),
         ", ".join(f'"{n}": {g}' for n, g in choices),
         ", ".join(f'"{n}": {g}' for n, g in states),
     )
+
+
+def exec_model(text):
     ns = {}
     exec(text, ns)
-    return text, ns["MODEL"], P, shocks
+    return ns["MODEL"]
+
+
+def build(fv):
+    src, states, choices, funcs, P, shocks = make_source(fv)
+    text = assemble(fv["T"], src, states, choices, funcs)
+    return text, exec_model(text), P, shocks
